@@ -392,7 +392,9 @@ def step (s : St) (line : String) : St × String :=
               -- (at a stationary point, g = 0, the C++ divides 0/0 in borderDistance: prediction and step are NaN, the
               --  step is rejected because every comparison with NaN is false; NaN passes these two tests)
               [("predicted-change<=0", if sol.1 > 0 then 2 else 0),
-               ("step-inside-radius", if Vec.normSqr sol.2 > cur.delta * cur.delta * (1 + 1e-9) then 2 else 0)])
+               -- (not meaningful once delta² underflows: after convergence every step is rejected and the radius is divided
+               --  by 4 per step for ever)
+               ("step-inside-radius", if cur.delta * cur.delta > 1e-280 && Vec.normSqr sol.2 > cur.delta * cur.delta * (1 + 1e-6) then 2 else 0)])
       ({ s with x := { s.x with tcur := some h } }, out)
   | [op, st, bx] =>
     if op != "xstep" then (s, "bad-op") else
